@@ -549,6 +549,354 @@ def sim_oracle(case, o):
     return bad
 
 
+# ---------------------------------------------------------------------------------------------
+# stage 3: the tensor-network view and the tensor-network simulator against the Lean model
+# (model: circuitNet / tnRun of QibModel/CircuitNet.lean, driver drv_circuitnet; Lean: Properties/C05Net.lean)
+# ---------------------------------------------------------------------------------------------
+
+NET_LIMIT = {"quick": 60000, "thorough": 400000}
+_net_tier = ["quick"]
+FIXED_REFS = {"PauliX": 1, "ctrl_cross_neg": 2, "ctrl_cross_pos": 3, "|0>_2": 4}
+
+
+class _RefTable:
+    """data references are Python strings; the model sees integers: the fixed strings keep the numbers of QibModel/GateNet.lean,
+    "|0>_d" is -d-1, every other string gets 5 + (order of first appearance in this case)"""
+
+    def __init__(self):
+        self.tab = {}
+
+    def __call__(self, r):
+        if r is None:
+            return None
+        r = str(r)
+        if r in FIXED_REFS:
+            return FIXED_REFS[r]
+        if r.startswith("|0>_"):
+            return -int(r[4:]) - 1
+        if r not in self.tab:
+            self.tab[r] = 5 + len(self.tab)
+        return self.tab[r]
+
+
+def _net_snapshot(tn, ref):
+    tensors = [[int(k), int(t.tid), [int(d) for d in t.shape], [int(b) for b in t.bids], ref(t.dataref)] for k, t in tn.net.tensors.items()]
+    bonds = [[int(k), int(b.bid), [int(t) for t in b.tids]] for k, b in tn.net.bonds.items()]
+    data = [[ref(k), [int(d) for d in np.shape(v)], np.asarray(v, dtype=complex).reshape(-1).copy()] for k, v in tn.data.items()]
+    return {"tensors": tensors, "bonds": bonds, "data": data}
+
+
+@contextlib.contextmanager
+def _record_merges(rec, captured):
+    """record, for every SymbolicTensorNetwork.merge, the iteration orders of the two key intersections exactly as merge will see
+    them (inputs of the model), and capture the network handed to contract_einsum (the one the simulator contracts)"""
+    from qib.tensor_network.symbolic_network import SymbolicTensorNetwork as STN
+    from qib.tensor_network.tensor_network import TensorNetwork as TNW
+    orig_merge, orig_ce = STN.merge, TNW.contract_einsum
+
+    def merge(self, other, join_axes=None):
+        o = copy.deepcopy(other)
+        rec.append(([int(x) for x in (self.tensors.keys() & o.tensors.keys())], [int(x) for x in (self.bonds.keys() & o.bonds.keys())]))
+        return orig_merge(self, other, join_axes)
+
+    def contract_einsum(self):
+        captured.append(self)
+        return orig_ce(self)
+    STN.merge, TNW.contract_einsum = merge, contract_einsum
+    try:
+        yield
+    finally:
+        STN.merge, TNW.contract_einsum = orig_merge, orig_ce
+
+
+def _exc(e):
+    from props import c06
+    return {"raised": c06.err_kind(e), "msg": f"{type(e).__name__}: {e}"[:160]}
+
+
+def net_impl(case):
+    from props import c06
+    import qib.tensor_network.tensor_network as tnm
+    qib = _ctx["qib"]
+    fields, objs = c04.build_fields(case)
+    gobjs = [make_obj(g, objs) for g in case["gates"]]
+    circ = qib.Circuit(gobjs)
+    with contextlib.redirect_stdout(io.StringIO()):
+        fl = circ.fields()
+    ref = _RefTable()
+    out = {"_fields": [[c04._fid_of(objs, f), int(f.lattice.nsites), int(f.local_dim)] for f in fl]}
+    # the gates as the model sees them: particles, description with exact matrices, number of the gate's own data reference
+    gdesc, isgate = [], []
+    for g in gobjs:
+        if isinstance(g, qib.operator.ControlInstruction):
+            gdesc.append("ctrl"); isgate.append(False)
+            continue
+        d = {"particles": [[c04._fid_of(objs, p.field), int(p.index)] for p in g.particles()], "g": c06.to_ng(g), "ref0": 0, "tor": [], "bor": []}
+        try:
+            own = g.as_tensornet()
+            if 0 in own.net.tensors:
+                d["ref0"] = ref(own.net.tensors[0].dataref)
+        except Exception:
+            pass
+        gdesc.append(d); isgate.append(True)
+    out["_gates"] = gdesc
+    # --- Circuit.as_tensornet()
+    rec, cap = [], []
+    try:
+        with contextlib.redirect_stdout(io.StringIO()), _record_merges(rec, cap):
+            tn = circ.as_tensornet()
+        out["net"] = _net_snapshot(tn, ref)
+        out["consistent"] = bool(tn.is_consistent())
+        out["numOpen"] = int(tn.num_open_axes)
+        out["shape"] = [int(d) for d in tn.shape]
+        out["nbonds"] = int(tn.num_bonds)
+        if tn.num_bonds <= 52 and 2 * len(out["shape"]) <= 14:
+            try:
+                out["_full"] = np.asarray(tnm.to_full_tensor(*tn.contract_einsum()), dtype=complex)
+            except Exception as e:
+                out["full_err"] = _exc(e)
+    except Exception as e:
+        out["net"] = _exc(e)
+    gi = [i for i, b in enumerate(isgate) if b]
+    for k, od in enumerate(rec[:len(gi)]):
+        gdesc[gi[k]]["tor"], gdesc[gi[k]]["bor"] = od
+    # --- TensorNetworkSimulator().run(circ)
+    rec2, cap2 = [], []
+    out["_sim_order"] = [[], []]
+    try:
+        with contextlib.redirect_stdout(io.StringIO()), _record_merges(rec2, cap2):
+            psi = qib.simulator.TensorNetworkSimulator().run(circ)
+        out["_psi"] = np.asarray(psi, dtype=complex)
+    except Exception as e:
+        out["sim"] = _exc(e)
+    if len(rec2) == len(gi) + 1:
+        out["_sim_order"] = [rec2[-1][0], rec2[-1][1]]
+    if cap2:
+        out["simnet"] = _net_snapshot(cap2[-1], ref)
+        out["sim_nbonds"] = int(cap2[-1].num_bonds)
+    # --- the implementation's own views against as_matrix (direct oracle)
+    out["_views"] = None if case.get("malformed") else views(circ)
+    out["_classes"] = sorted({type(g).__name__ for g in gobjs})
+    return out
+
+
+def net_req(case, o):
+    if "_gates" not in o:
+        return {"op": "circuit.net", "fields": [], "gates": [], "limit": 1}
+    return {"op": "circuit.net", "fields": o["_fields"], "gates": o["_gates"], "limit": NET_LIMIT[_net_tier[0]]}
+
+
+def simtn_req(case, o):
+    if "_gates" not in o:
+        return {"op": "sim.tn", "fields": [], "gates": [], "tor": [-1], "bor": [], "limit": 1}
+    return {"op": "sim.tn", "fields": o["_fields"], "gates": o["_gates"], "tor": o["_sim_order"][0], "bor": o["_sim_order"][1],
+            "limit": NET_LIMIT[_net_tier[0]]}
+
+
+def _dt_np(j):
+    from common import uncq
+    return np.array([uncq(p) for p in j["v"]], dtype=complex).reshape(j["shape"])
+
+
+def _cmp_net(tag, impl_net, m):
+    """exact structural comparison up to the canonical bond relabelling of DESIGN 2.2; data arrays exact"""
+    from props import c06
+    a = c06.canon_net(impl_net["tensors"], impl_net["bonds"])
+    b = c06.canon_net(m["tensors"], m["bonds"])
+    if a["tensors"] != b["tensors"]:
+        for x, y in zip(a["tensors"], b["tensors"]):
+            if x != y:
+                return f"{tag}: tensor impl {x} != model {y} (canonical bond ids)"
+        return f"{tag}: number of tensors impl {len(a['tensors'])} != model {len(b['tensors'])}"
+    if a["bonds"] != b["bonds"]:
+        for x, y in zip(a["bonds"], b["bonds"]):
+            if x != y:
+                return f"{tag}: bond impl {x} != model {y} (canonical bond ids)"
+        return f"{tag}: number of bonds impl {len(a['bonds'])} != model {len(b['bonds'])}"
+    # dictionary order of the tensors (insertion order of the Python dict)
+    if [t[0] for t in impl_net["tensors"]] != [t[0] for t in m["tensors"]]:
+        return f"{tag}: order of the tensor dictionary impl {[t[0] for t in impl_net['tensors']]} != model {[t[0] for t in m['tensors']]}"
+    if [d[0] for d in impl_net["data"]] != [e[0] for e in m["data"]]:
+        return f"{tag}: data dictionary keys impl {[d[0] for d in impl_net['data']]} != model {[e[0] for e in m['data']]}"
+    for (r, shape, arr), (_, mj) in zip(impl_net["data"], m["data"]):
+        ma = _dt_np(mj)
+        if list(mj["shape"]) != shape or not np.array_equal(ma.reshape(-1), arr):
+            return f"{tag}: data array {r}: impl differs from model (shape {shape} vs {mj['shape']})"
+    return None
+
+
+def net_compare(case, o, m):
+    if "harness_exception" in o:
+        return "harness exception: " + o["harness_exception"] + " " + o.get("tb", "")[-300:]
+    if "raised" in o["net"] or "raised" in m:
+        if o["net"].get("raised") != m.get("raised"):
+            return f"Circuit.as_tensornet: impl {o['net'].get('raised', 'network')} {o['net'].get('msg', '')} != model {m.get('raised', 'network')}"
+        return None
+    d = _cmp_net("as_tensornet", o["net"], m)
+    if d:
+        return d
+    if m["consistentData"] != o["consistent"] or m["numOpen"] != o["numOpen"] or m["shape"] != o["shape"]:
+        return (f"as_tensornet: is_consistent/num_open_axes/shape impl {(o['consistent'], o['numOpen'], o['shape'])} != "
+                f"model {(m['consistentData'], m['numOpen'], m['shape'])}")
+    if m.get("full") is not None:
+        if "err" in m["full"]:
+            return f"model denotation failed: {m['full']}"
+        me = m["einsum"]
+        if "full_err" in o or "err" in me:
+            if o.get("full_err", {}).get("raised") != me.get("err"):
+                return f"contract_einsum: impl {o.get('full_err', {}).get('raised', 'tensor')} {o.get('full_err', {}).get('msg', '')} != model {me.get('err', 'tensor')}"
+            return None
+        if "_full" in o:
+            if not close(o["_full"], _dt_np(m["full"])):
+                return "to_full_tensor(as_tensornet().contract_einsum()) differs from the model's denotation `full` of circuitNet"
+            if not close(o["_full"], _dt_np(me)):
+                return "to_full_tensor(as_tensornet().contract_einsum()) differs from the model's contractEinsum/toFullTensor"
+    return None
+
+
+def simtn_compare(case, o, m):
+    if "harness_exception" in o:
+        return "harness exception: " + o["harness_exception"] + " " + o.get("tb", "")[-300:]
+    einsum_limit = o.get("sim_nbonds", 0) > 52 or ("net" in o and isinstance(o["net"], dict) and o["net"].get("msg", "").startswith("IndexError: string index"))
+    if "sim" in o and "simnet" not in o:
+        # raised before the contraction
+        if o["sim"]["raised"] != m.get("raised"):
+            return f"TensorNetworkSimulator.run: impl {o['sim']['raised']} {o['sim'].get('msg', '')} != model {m.get('raised', 'state')}"
+        return None
+    if "raised" in m:
+        return f"TensorNetworkSimulator.run: impl returned (or reached the contraction), model raised {m['raised']}"
+    d = _cmp_net("network contracted by the simulator", o["simnet"], m)
+    if d:
+        return d
+    if "sim" in o:
+        if einsum_limit:
+            return None     # NumPy's 52-label limit of einsum (resource limit, see ASSUMPTIONS)
+        if m.get("psi") is None:
+            return None     # beyond the model's term limit: cannot be decided here; the oracle reports the raise
+        if "raised" not in m["psi"] or m["psi"]["raised"] != o["sim"]["raised"]:
+            return f"TensorNetworkSimulator.run: impl {o['sim']['raised']} {o['sim'].get('msg', '')} != model {m['psi'].get('raised', 'state')}"
+        return None
+    if m.get("psi") is not None:
+        if "raised" in m["psi"]:
+            return f"TensorNetworkSimulator.run returned a state, the model's tnRun raised {m['psi']['raised']}"
+        mp = _dt_np(m["psi"])
+        if mp.shape != o["_psi"].shape or not close(o["_psi"], mp):
+            return "TensorNetworkSimulator.run differs from the model's tnRun"
+    return None
+
+
+def net_oracle(case, o):
+    """the implementation's own views against as_matrix (the `views` oracle of stage 1), plus: is_consistent and 2 open axes per wire"""
+    if "harness_exception" in o:
+        return []
+    bad = oracle({"ops": []}, {"steps": [], "_expect": [], "_views": o.get("_views")})
+    if isinstance(o.get("net"), dict) and "tensors" in o["net"]:
+        n = sum(f[1] for f in o["_fields"])
+        if not o["consistent"]:
+            bad.append(("C05:tensornet:inconsistent", "Circuit.as_tensornet() returned a network that fails is_consistent()"))
+        if o["numOpen"] != 2 * n:
+            bad.append(("C05:tensornet:open-axes", f"Circuit.as_tensornet() has {o['numOpen']} open axes on {n} wires"))
+    return bad
+
+
+def _net_fixed_cases():
+    """deterministic witnesses: idle wires next to negated controls, shared control wires, several fields, malformed placements"""
+    H = {"kind": "single", "cls": "HadamardGate", "args": []}
+    X = {"kind": "single", "cls": "PauliXGate", "args": []}
+    Ry = lambda t: {"kind": "single", "cls": "RyGate", "args": [t]}
+    cn = lambda cs, t: {"kind": "controlled", "nc": len(cs), "ctrl_state": cs, "target": t}
+    base = {"op": "circuit.net", "field_defs": [[0, 3, 2]], "order": [0]}
+    yield dict(base, gates=[])
+    yield dict(base, gates=[{"gate": H, "particles": [[0, 0]]}, {"gate": X, "particles": [[0, 0]]}])       # the idle-wire einsum case
+    yield dict(base, gates=[{"gate": cn([0], X), "particles": [[0, 2], [0, 0]]}, {"gate": X, "particles": [[0, 0]]}])
+    yield dict(base, gates=[{"gate": cn([0, 1], Ry(0.3)), "particles": [[0, 2], [0, 0], [0, 1]]},
+                            {"gate": cn([1], Ry(-1.1)), "particles": [[0, 2], [0, 1]]}])
+    yield dict(base, field_defs=[[0, 1, 2], [2, 2, 2], [4, 1, 2]], order=[4, 0, 2],
+               gates=[{"gate": H, "particles": [[2, 1]]}, {"gate": cn([0], Ry(0.7)), "particles": [[4, 0], [0, 0]]},
+                      {"gate": {"kind": "phase", "phi": 0.4, "m": 2}, "particles": [[2, 0], [4, 0]]}])
+    yield dict(base, gates=[{"gate": {"kind": "multiplexed", "nc": 1, "targets": [Ry(0.2), Ry(-0.9)]}, "particles": [[0, 1], [0, 2]]},
+                            {"gate": {"kind": "ctrl", "cls": "barrier"}, "particles": []}, {"gate": H, "particles": [[0, 1]]}])
+    # the known two-qubit wraps: refused by the open-axes assertion (model: same refusal)
+    yield dict(base, gates=[{"gate": H, "particles": [[0, 1]]}, {"gate": {"kind": "rzz", "cls": "RzzGate", "theta": 1.5}, "particles": [[0, 0], [0, 1]]}])
+    yield dict(base, gates=[{"gate": {"kind": "iswap"}, "particles": [[0, 2], [0, 1]]}])
+    # malformed placements (as_matrix refuses them; the tensor-network code has its own behaviour, mirrored by the model)
+    yield dict(base, malformed=True, gates=[{"gate": cn([1], X), "particles": [[0, 1], [0, 1]]}])          # control wire = target wire
+    yield dict(base, malformed=True, gates=[{"gate": H, "particles": [[0, 4]]}])                            # index beyond the lattice, < 2n
+    yield dict(base, malformed=True, gates=[{"gate": H, "particles": [[0, 7]]}])                            # index beyond 2n
+    yield dict(base, malformed=True, gates=[{"gate": H, "particles": [[0, -1]]}])
+    yield dict(base, malformed=True, field_defs=[[1, 2, 3]], order=[1], gates=[{"gate": H, "particles": [[1, 0]]}])   # local dimension 3
+    yield dict(base, malformed=True, field_defs=[[1, 2, 3]], order=[1], gates=[])
+
+
+def gen_net_cases(tier, rng):
+    """fixed witnesses, then random circuits drawn like `gen_sim_cases` (same gate descriptors, `c04.rand_gate_desc`); the four
+    two-qubit wraps of the known finding are kept in about one circuit out of 12 only (every circuit containing one is refused)"""
+    for c in _net_fixed_cases():
+        yield c
+    n = 700 if tier == "thorough" else 150
+    for i in range(n):
+        nf = rng.choice([1, 1, 2, 3])
+        nmax = 5 if i % 12 == 0 else 4
+        while True:
+            sizes = [rng.randint(1, 3) for _ in range(nf)]
+            if 1 <= sum(sizes) <= nmax:
+                break
+        ids = rng.sample([0, 2, 4], nf)
+        defs = [[fid, s_, 2] for fid, s_ in zip(ids, sizes)]
+        allp = [(fid, k) for fid, s_, _ in defs for k in range(s_)]
+        length = rng.choice([0, 1, 2, 3, 4, 5, 6, 8, 12])
+        wraps_ok = rng.random() < 0.08
+        gates = []
+        for _ in range(length):
+            if rng.random() < 0.04:
+                ps = rng.sample(allp, rng.randint(0, min(2, len(allp))))
+                gates.append({"gate": {"kind": "ctrl", "cls": rng.choice(["barrier", "measure"])}, "particles": [list(p) for p in ps]})
+                continue
+            while True:
+                gd, m = c04.rand_gate_desc(rng, min(len(allp), 3))
+                if wraps_ok or gd["kind"] not in ("iswap", "rzz"):
+                    break
+            gates.append({"gate": gd, "particles": [list(p) for p in rng.sample(allp, m)]})
+        yield {"op": "circuit.net", "field_defs": defs, "order": list(ids), "gates": gates}
+
+
+def run_net_stage(rep, tier, rng):
+    """stage 3 of `run`: builds and launches its own driver (drv_circuitnet)"""
+    from common import lake_build, Driver
+    _net_tier[0] = tier
+    ndrv = None
+    ok, log = lake_build(["drv_circuitnet"])
+    if ok:
+        ndrv = Driver("drv_circuitnet")
+    else:
+        rep.tie_broken("drv_circuitnet", "correspondence", "circuit-network model driver does not build: " + log[-400:])
+    cases = []
+    for c in gen_net_cases(tier, rng):
+        rep.count("net-circuits")
+        rep.count("net-circuit-len:%d" % len(c["gates"]))
+        cases.append(c)
+    cache = {}
+
+    def impl_cached(c):
+        k = id(c)
+        if k not in cache:
+            cache[k] = net_impl(c)
+        return cache[k]
+
+    def orc(c, o):
+        if isinstance(o, dict) and isinstance(o.get("net"), dict):
+            rep.count("net:" + ("raised:" + o["net"]["raised"] if "raised" in o["net"] else "network"))
+            if "_full" in o:
+                rep.count("net:dense-value-compared-by-impl")
+        return net_oracle(c, o)
+
+    def nontriv(c, o):
+        return isinstance(o, dict) and isinstance(o.get("net"), dict) and "tensors" in o["net"] and len(o["net"]["tensors"]) >= 3
+    run_correspondence(rep, ndrv, cases, impl_cached, net_req, net_compare, orc, "circuit.net", batch=40, req_uses_output=True, nontrivial=nontriv)
+    run_correspondence(rep, ndrv, cases, impl_cached, simtn_req, simtn_compare, lambda c, o: [], "sim.tn", batch=40, req_uses_output=True,
+                       nontrivial=lambda c, o: isinstance(o, dict) and "_psi" in o)
+
+
 def run(rep, tier, rng, drv):
     setup()
 
@@ -569,3 +917,4 @@ def run(rep, tier, rng, drv):
             yield c
     run_correspondence(rep, drv, counted_sim(), sim_impl, sim_req, sim_compare, sim_oracle, "sim.statevector", batch=60, req_uses_output=True)
     rep.cov["not_covered_yet"] = "tensor-network view and tensor-network simulator: oracle-level consistency only (final circuit of every third history); the statevector simulator is modelled (svRun) and proved equal to column 0"
+    run_net_stage(rep, tier, rng)
